@@ -60,8 +60,8 @@ func c16types() []c16type {
 		mk("uint16", "0", "1", "32767", "32768", "65535"),
 		mk("int32", "-2147483648", "-5", "0", "5", "2147483647"),
 		mk("uint32", "0", "5", "2147483647", "2147483648", "4294967295"),
-		mk("int64", "-9223372036854775808", "-1", "0", "4294967296", "9223372036854775807"),
-		mk("uint64", "0", "1", "9223372036854775807", "9223372036854775808", "18446744073709551615"),
+		mk("int64", "-9223372036854775808", "-9007199254740993", "-1", "0", "4294967296", "9007199254740992", "9007199254740993", "9223372036854775806", "9223372036854775807"),
+		mk("uint64", "0", "1", "9007199254740993", "1152921504606846975", "1152921504606846976", "9223372036854775807", "9223372036854775808", "18446744073709551614", "18446744073709551615"),
 	}
 	ts = append(ts, c16type{name: "decimal64", stype: &dp.SType{Base: "decimal64", FD: 2}, yang: "type decimal64 { fraction-digits 2; }", values: []string{"-1.5", "-0.25", "0", "0.5", "1.5", "100.25"}, rank: num})
 	ts = append(ts, c16type{name: "string", stype: &dp.SType{Base: "string"}, yang: "type string;", values: []string{"", "A", "a", "ab", "b", "é"},
@@ -202,7 +202,8 @@ func (p c16) when(c *core.Ctx, t c16type, op, lit, placement string) {
 		}
 	case "when-uses":
 		mkYang = func(cond string) string {
-			return fmt.Sprintf("grouping inner { leaf g2 { type int32; } } grouping gg { leaf g { type string; } uses inner; } leaf o { %s %s } uses gg { %s } leaf q { type string; }", t.yang, dflt, cond)
+			// the same grouping is used again, later and without a condition: that expansion is never hidden
+			return fmt.Sprintf("grouping inner { leaf g2 { type int32; } } grouping gg { leaf g { type string; } uses inner; } leaf o { %s %s } uses gg { %s } container other { uses gg; } leaf q { type string; }", t.yang, dflt, cond)
 		}
 	case "when-augment":
 		mkYang = func(cond string) string {
@@ -262,7 +263,7 @@ func (p c16) when(c *core.Ctx, t c16type, op, lit, placement string) {
 			case "when-container":
 				doc = fmt.Sprintf("{\"g\":{%s\"p\":\"x\"},\"q\":\"keep\"}", ov)
 			case "when-uses":
-				doc = fmt.Sprintf("{%s\"g\":\"x\",\"g2\":7,\"q\":\"keep\"}", ov)
+				doc = fmt.Sprintf("{%s\"g\":\"x\",\"g2\":7,\"other\":{\"g\":\"y\",\"g2\":8},\"q\":\"keep\"}", ov)
 			case "when-leaf", "when-edit":
 				doc = fmt.Sprintf("{%s\"g\":\"x\",\"q\":\"keep\"}", ov)
 			case "when-leaf-list":
@@ -294,6 +295,20 @@ func (p c16) when(c *core.Ctx, t c16type, op, lit, placement string) {
 				continue
 			}
 			visible := strings.Contains(got, "\"g\"") || strings.Contains(got, "\"g2\"") || strings.Contains(got, "\"g3\"")
+			if placement == "when-uses" {
+				var top map[string]interface{}
+				if jsonUnmarshal(got, &top) != nil {
+					c.Violate("when/error/"+sig, "output is not JSON\n%s", wit)
+					continue
+				}
+				_, g1 := top["g"]
+				_, g2 := top["g2"]
+				visible = g1 || g2
+				if o, _ := top["other"].(map[string]interface{}); o == nil || o["g"] != "y" || o["g2"] != 8.0 {
+					c.Violate("when/unconditional-uses-hidden/"+sig, "the second, unconditional uses of the grouping is affected by the condition of the first\n%s", wit)
+					continue
+				}
+			}
 			if want {
 				// true: behaves as if there was no when
 				if got != ref {
